@@ -112,11 +112,27 @@ func (q *ShardQueue) Close() error {
 		return fmt.Errorf("shardQueue has been closed")
 	}
 	// wait for all tasks finished
-	for atomic.LoadInt32(&q.trigger) != 0 {
+	for !q.drained() {
 		runtime.Gosched()
 	}
 	atomic.StoreInt32(&q.state, closed)
 	return nil
+}
+
+// drained reports whether every getter added so far has been handed to the worker and dealt with.
+// trigger alone does not tell: the Add that made a shard non-empty counts its trigger only after it has
+// released the shard, and other Adds may append to that shard and return in between.
+// The shards must be looked at before trigger: a getter that has left its shard keeps trigger > 0 until it is dealt with.
+func (q *ShardQueue) drained() bool {
+	for shard := int32(0); shard < q.size; shard++ {
+		q.lock(shard)
+		n := len(q.getters[shard])
+		q.unlock(shard)
+		if n != 0 {
+			return false
+		}
+	}
+	return atomic.LoadInt32(&q.trigger) == 0
 }
 
 // triggering shard.
